@@ -24,6 +24,7 @@ class StreamFromGenerator(DefaultPublisherSubscription, Disposable):
                  on_cancel=None,
                  on_complete=None):
         self._generator_factory = generator
+        self._generator = None
         self._queue = asyncio.Queue()
         self._delay_between_messages = delay_between_messages
         self._subscriber: Optional[Subscriber] = None
